@@ -113,8 +113,8 @@ def analyse(ctx, case, run, S):
         else:
             b, nid = cand[0]
             num = run.norm.nm(nid)[0]
-            ctx.solve(S, 'not-identically-zero', '%s residual[%s] (%s)' % (case['name'], run.basis_name(b), v['action']), side + ['(not (= t%d 0.0))' % num], expect='sat',
-                      cfg=cfg, key=key + ':residual-zero', pred='tampered_accepted')
+            ctx.solve_nonzero(S, run, '%s residual[%s] (%s)' % (case['name'], run.basis_name(b), v['action']), num, side,
+                              cfg=cfg, key=key + ':residual-zero', pred='tampered_accepted')
 
 
 def run(ctx):
